@@ -68,6 +68,7 @@ Record conn := {
   cid : nat;                          (* connection ID *)
   pc : cpc;
   nreq : nat;                         (* requestID *)
+  nread : nat;                        (* ghost: items taken from the input so far *)
   input : list item;                  (* bytes the client sent and the server has not read *)
   eof : bool;                         (* client closed or reset *)
   stalled : bool;                     (* client does not read *)
@@ -84,7 +85,7 @@ Record conn := {
 }.
 
 Definition new_conn (id : nat) (intr : bool) : conn :=
-  {| cid := id; pc := CInit; nreq := 0; input := []; eof := false; stalled := false; interrupted := intr;
+  {| cid := id; pc := CInit; nreq := 0; nread := 0; input := []; eof := false; stalled := false; interrupted := intr;
      inflight := 0; hs := []; started := []; ended := []; unbind_seen := false; read_after_unbind := 0;
      sock_closed := false; onclose := 0; wgdone := false |}.
 
@@ -111,6 +112,7 @@ Record state := {
   connwg : nat;
   backlog : nat;                      (* clients connected and not yet accepted *)
   accept_err : bool;                  (* a non-"closed" Accept error is pending *)
+  accept_failed : bool;               (* ghost, sticky: Run returned because Accept failed *)
   conns : list conn;
   alive : bool;                       (* the process has not died of an unrecovered panic *)
   released : list nat;                (* barriers the test has released *)
@@ -119,7 +121,7 @@ Record state := {
 
 Definition init : state :=
   {| lst := NotCreated; port_bound := false; ready := false; cancelled := false; run := RNot; stops := [];
-     nextid := 0; connwg := 0; backlog := 0; accept_err := false; conns := []; alive := true;
+     nextid := 0; connwg := 0; backlog := 0; accept_err := false; accept_failed := false; conns := []; alive := true;
      released := []; onclose_held := false |}.
 
 Inductive label :=
@@ -146,7 +148,7 @@ Definition internal (l : label) : bool :=
 (* record updates                                                     *)
 
 Definition set_pc (c : conn) (p : cpc) : conn :=
-  {| cid := cid c; pc := p; nreq := nreq c; input := input c; eof := eof c; stalled := stalled c;
+  {| cid := cid c; pc := p; nreq := nreq c; nread := nread c; input := input c; eof := eof c; stalled := stalled c;
      interrupted := interrupted c; inflight := inflight c; hs := hs c; started := started c; ended := ended c;
      unbind_seen := unbind_seen c; read_after_unbind := read_after_unbind c; sock_closed := sock_closed c;
      onclose := onclose c; wgdone := wgdone c |}.
@@ -160,7 +162,7 @@ Fixpoint update_nth {A} (n : nat) (f : A -> A) (l : list A) : list A :=
 
 Definition set_conns (s : state) (cs : list conn) : state :=
   {| lst := lst s; port_bound := port_bound s; ready := ready s; cancelled := cancelled s; run := run s;
-     stops := stops s; nextid := nextid s; connwg := connwg s; backlog := backlog s; accept_err := accept_err s;
+     stops := stops s; nextid := nextid s; connwg := connwg s; backlog := backlog s; accept_err := accept_err s; accept_failed := accept_failed s;
      conns := cs; alive := alive s; released := released s; onclose_held := onclose_held s |}.
 
 Definition mem_nat (x : nat) (l : list nat) : bool := existsb (Nat.eqb x) l.
@@ -187,7 +189,7 @@ Definition conn_step (cfg : config) (s : state) (c : conn) : option (conn * effe
   match pc c with
   | CInit => Some (set_pc c CLoopTop, ENone)
   | CLoopTop =>
-    let c1 := {| cid := cid c; pc := pc c; nreq := S (nreq c); input := input c; eof := eof c; stalled := stalled c;
+    let c1 := {| cid := cid c; pc := pc c; nreq := S (nreq c); nread := nread c; input := input c; eof := eof c; stalled := stalled c;
                  interrupted := interrupted c; inflight := inflight c; hs := hs c; started := started c;
                  ended := ended c; unbind_seen := unbind_seen c; read_after_unbind := read_after_unbind c;
                  sock_closed := sock_closed c; onclose := onclose c; wgdone := wgdone c |} in
@@ -201,7 +203,7 @@ Definition conn_step (cfg : config) (s : state) (c : conn) : option (conn * effe
     | it :: rest =>
       let after := if unbind_seen c then S (read_after_unbind c) else read_after_unbind c in
       let base p st inf h ub :=
-          {| cid := cid c; pc := p; nreq := nreq c; input := rest; eof := eof c; stalled := stalled c;
+          {| cid := cid c; pc := p; nreq := nreq c; nread := S (nread c); input := rest; eof := eof c; stalled := stalled c;
              interrupted := interrupted c; inflight := inf; hs := h; started := st; ended := ended c;
              unbind_seen := ub; read_after_unbind := after; sock_closed := sock_closed c;
              onclose := onclose c; wgdone := wgdone c |} in
@@ -218,7 +220,7 @@ Definition conn_step (cfg : config) (s : state) (c : conn) : option (conn * effe
       end
     end
   | CInline k [] =>
-    let c1 := {| cid := cid c; pc := pc c; nreq := nreq c; input := input c; eof := eof c; stalled := stalled c;
+    let c1 := {| cid := cid c; pc := pc c; nreq := nreq c; nread := nread c; input := input c; eof := eof c; stalled := stalled c;
                  interrupted := interrupted c; inflight := inflight c; hs := hs c; started := started c;
                  ended := ended c ++ [nreq c]; unbind_seen := unbind_seen c;
                  read_after_unbind := read_after_unbind c; sock_closed := sock_closed c; onclose := onclose c;
@@ -234,7 +236,7 @@ Definition conn_step (cfg : config) (s : state) (c : conn) : option (conn * effe
     | HHandshake =>
       (* consumes the client's handshake bytes when they are there *)
       let inp := match input c with IHello :: r => r | i => i end in
-      Some ({| cid := cid c; pc := CInline k rest; nreq := nreq c; input := inp; eof := eof c; stalled := stalled c;
+      Some ({| cid := cid c; pc := CInline k rest; nreq := nreq c; nread := nread c; input := inp; eof := eof c; stalled := stalled c;
                interrupted := interrupted c; inflight := inflight c; hs := hs c; started := started c;
                ended := ended c; unbind_seen := unbind_seen c; read_after_unbind := read_after_unbind c;
                sock_closed := sock_closed c; onclose := onclose c; wgdone := wgdone c |}, ENone)
@@ -244,20 +246,20 @@ Definition conn_step (cfg : config) (s : state) (c : conn) : option (conn * effe
   | CTeardown (t :: rest) =>
     match t with
     | TWgDone =>
-      Some ({| cid := cid c; pc := CTeardown rest; nreq := nreq c; input := input c; eof := eof c; stalled := stalled c;
+      Some ({| cid := cid c; pc := CTeardown rest; nreq := nreq c; nread := nread c; input := input c; eof := eof c; stalled := stalled c;
                interrupted := interrupted c; inflight := inflight c; hs := hs c; started := started c;
                ended := ended c; unbind_seen := unbind_seen c; read_after_unbind := read_after_unbind c;
                sock_closed := sock_closed c; onclose := onclose c; wgdone := true |}, EWgDone)
     | TWaitHandlers => if (inflight c =? 0)%nat then Some (set_pc c (CTeardown rest), ENone) else None
     | TSockClose =>
-      Some ({| cid := cid c; pc := CTeardown rest; nreq := nreq c; input := input c; eof := eof c; stalled := stalled c;
+      Some ({| cid := cid c; pc := CTeardown rest; nreq := nreq c; nread := nread c; input := input c; eof := eof c; stalled := stalled c;
                interrupted := interrupted c; inflight := inflight c; hs := hs c; started := started c;
                ended := ended c; unbind_seen := unbind_seen c; read_after_unbind := read_after_unbind c;
                sock_closed := true; onclose := onclose c; wgdone := wgdone c |}, ENone)
     | TOnClose =>
       if negb (has_onclose cfg) then Some (set_pc c (CTeardown rest), ENone)
       else if onclose_held s then None
-      else Some ({| cid := cid c; pc := CTeardown rest; nreq := nreq c; input := input c; eof := eof c;
+      else Some ({| cid := cid c; pc := CTeardown rest; nreq := nreq c; nread := nread c; input := input c; eof := eof c;
                     stalled := stalled c; interrupted := interrupted c; inflight := inflight c; hs := hs c;
                     started := started c; ended := ended c; unbind_seen := unbind_seen c;
                     read_after_unbind := read_after_unbind c; sock_closed := sock_closed c;
@@ -280,7 +282,7 @@ Definition handler_step (cfg : config) (s : state) (c : conn) (r : nat) : option
   | None => None
   | Some (sc, others) =>
     let finish :=
-        {| cid := cid c; pc := pc c; nreq := nreq c; input := input c; eof := eof c; stalled := stalled c;
+        {| cid := cid c; pc := pc c; nreq := nreq c; nread := nread c; input := input c; eof := eof c; stalled := stalled c;
            interrupted := interrupted c; inflight := pred (inflight c); hs := others; started := started c;
            ended := ended c ++ [r]; unbind_seen := unbind_seen c; read_after_unbind := read_after_unbind c;
            sock_closed := sock_closed c; onclose := onclose c; wgdone := wgdone c |} in
@@ -292,14 +294,14 @@ Definition handler_step (cfg : config) (s : state) (c : conn) (r : nat) : option
       | HPanic =>
         (* recovered: the goroutine ends (requestsWg.Done runs) without the handler having returned *)
         if recovery cfg && handler_rec cfg
-        then Some ({| cid := cid c; pc := pc c; nreq := nreq c; input := input c; eof := eof c; stalled := stalled c;
+        then Some ({| cid := cid c; pc := pc c; nreq := nreq c; nread := nread c; input := input c; eof := eof c; stalled := stalled c;
                       interrupted := interrupted c; inflight := pred (inflight c); hs := others;
                       started := started c; ended := ended c; unbind_seen := unbind_seen c;
                       read_after_unbind := read_after_unbind c; sock_closed := sock_closed c;
                       onclose := onclose c; wgdone := wgdone c |}, ENone)
         else Some (c, EDie)
       | _ =>
-        Some ({| cid := cid c; pc := pc c; nreq := nreq c; input := input c; eof := eof c; stalled := stalled c;
+        Some ({| cid := cid c; pc := pc c; nreq := nreq c; nread := nread c; input := input c; eof := eof c; stalled := stalled c;
                  interrupted := interrupted c; inflight := inflight c; hs := others ++ [(r, rest)];
                  started := started c; ended := ended c; unbind_seen := unbind_seen c;
                  read_after_unbind := read_after_unbind c; sock_closed := sock_closed c; onclose := onclose c;
@@ -314,12 +316,12 @@ Definition apply_effect (s : state) (e : effect) : state :=
   | EWgDone =>
     {| lst := lst s; port_bound := port_bound s; ready := ready s; cancelled := cancelled s; run := run s;
        stops := stops s; nextid := nextid s; connwg := pred (connwg s); backlog := backlog s;
-       accept_err := accept_err s; conns := conns s; alive := alive s; released := released s;
+       accept_err := accept_err s; accept_failed := accept_failed s; conns := conns s; alive := alive s; released := released s;
        onclose_held := onclose_held s |}
   | EDie =>
     {| lst := lst s; port_bound := port_bound s; ready := ready s; cancelled := cancelled s; run := run s;
        stops := stops s; nextid := nextid s; connwg := connwg s; backlog := backlog s;
-       accept_err := accept_err s; conns := conns s; alive := false; released := released s;
+       accept_err := accept_err s; accept_failed := accept_failed s; conns := conns s; alive := false; released := released s;
        onclose_held := onclose_held s |}
   end.
 
@@ -338,7 +340,13 @@ Definition with_conn (s : state) (i : nat) (f : conn -> option (conn * effect)) 
 
 Definition mk (s : state) l pb rd cn rn st ni wg bl ae cs : state :=
   {| lst := l; port_bound := pb; ready := rd; cancelled := cn; run := rn; stops := st; nextid := ni; connwg := wg;
-     backlog := bl; accept_err := ae; conns := cs; alive := alive s; released := released s;
+     backlog := bl; accept_err := ae; accept_failed := accept_failed s; conns := cs; alive := alive s; released := released s;
+     onclose_held := onclose_held s |}.
+
+Definition mark_accept_failed (s : state) : state :=
+  {| lst := lst s; port_bound := port_bound s; ready := ready s; cancelled := cancelled s; run := run s;
+     stops := stops s; nextid := nextid s; connwg := connwg s; backlog := backlog s; accept_err := accept_err s;
+     accept_failed := true; conns := conns s; alive := alive s; released := released s;
      onclose_held := onclose_held s |}.
 
 (* is some Stop call holding the read lock (between its first step and its return)? *)
@@ -370,8 +378,9 @@ Definition run_step (cfg : config) (s : state) : option state :=
     match lst s with
     | Listening =>
       if accept_err s then
-        Some (mk s (lst s) (port_bound s) (ready s) (cancelled s) (RRet true) (stops s) (nextid s) undo (backlog s)
-                 false (conns s))
+        Some (mark_accept_failed
+                (mk s (lst s) (port_bound s) (ready s) (cancelled s) (RRet true) (stops s) (nextid s) undo (backlog s)
+                    false (conns s)))
       else match backlog s with
            | O => None
            | S b => Some (mk s (lst s) (port_bound s) (ready s) (cancelled s) RAccepted (stops s) (nextid s)
@@ -388,11 +397,29 @@ Definition run_step (cfg : config) (s : state) : option state :=
   | RRet _ => None
   end.
 
-Definition interrupt_all (cs : list conn) : list conn :=
-  map (fun c => {| cid := cid c; pc := pc c; nreq := nreq c; input := input c; eof := eof c; stalled := stalled c;
-                   interrupted := true; inflight := inflight c; hs := hs c; started := started c; ended := ended c;
-                   unbind_seen := unbind_seen c; read_after_unbind := read_after_unbind c;
-                   sock_closed := sock_closed c; onclose := onclose c; wgdone := wgdone c |}) cs.
+Definition interrupt (c : conn) : conn :=
+  {| cid := cid c; pc := pc c; nreq := nreq c; nread := nread c; input := input c; eof := eof c; stalled := stalled c;
+     interrupted := true; inflight := inflight c; hs := hs c; started := started c; ended := ended c;
+     unbind_seen := unbind_seen c; read_after_unbind := read_after_unbind c;
+     sock_closed := sock_closed c; onclose := onclose c; wgdone := wgdone c |}.
+Definition interrupt_all (cs : list conn) : list conn := map interrupt cs.
+
+(* what the environment does to a connection *)
+Definition env_send (it : item) (c : conn) : conn :=
+  {| cid := cid c; pc := pc c; nreq := nreq c; nread := nread c; input := input c ++ [it]; eof := eof c;
+     stalled := stalled c; interrupted := interrupted c; inflight := inflight c; hs := hs c; started := started c;
+     ended := ended c; unbind_seen := unbind_seen c; read_after_unbind := read_after_unbind c;
+     sock_closed := sock_closed c; onclose := onclose c; wgdone := wgdone c |}.
+Definition env_close (c : conn) : conn :=
+  {| cid := cid c; pc := pc c; nreq := nreq c; nread := nread c; input := input c; eof := true;
+     stalled := stalled c; interrupted := interrupted c; inflight := inflight c; hs := hs c; started := started c;
+     ended := ended c; unbind_seen := unbind_seen c; read_after_unbind := read_after_unbind c;
+     sock_closed := sock_closed c; onclose := onclose c; wgdone := wgdone c |}.
+Definition env_stall (b : bool) (c : conn) : conn :=
+  {| cid := cid c; pc := pc c; nreq := nreq c; nread := nread c; input := input c; eof := eof c;
+     stalled := b; interrupted := interrupted c; inflight := inflight c; hs := hs c; started := started c;
+     ended := ended c; unbind_seen := unbind_seen c; read_after_unbind := read_after_unbind c;
+     sock_closed := sock_closed c; onclose := onclose c; wgdone := wgdone c |}.
 
 Definition stop_step (cfg : config) (s : state) (i : nat) : option state :=
   match nth_error (stops s) i with
@@ -455,32 +482,20 @@ Definition step (cfg : config) (s : state) (l : label) : option state :=
     | _ => None     (* connection refused *)
     end
   | ESend i it =>
-    upd_conn_env s i (fun c =>
-      {| cid := cid c; pc := pc c; nreq := nreq c; input := input c ++ [it]; eof := eof c; stalled := stalled c;
-         interrupted := interrupted c; inflight := inflight c; hs := hs c; started := started c; ended := ended c;
-         unbind_seen := unbind_seen c; read_after_unbind := read_after_unbind c; sock_closed := sock_closed c;
-         onclose := onclose c; wgdone := wgdone c |})
+    upd_conn_env s i (env_send it)
   | EClose i =>
-    upd_conn_env s i (fun c =>
-      {| cid := cid c; pc := pc c; nreq := nreq c; input := input c; eof := true; stalled := stalled c;
-         interrupted := interrupted c; inflight := inflight c; hs := hs c; started := started c; ended := ended c;
-         unbind_seen := unbind_seen c; read_after_unbind := read_after_unbind c; sock_closed := sock_closed c;
-         onclose := onclose c; wgdone := wgdone c |})
+    upd_conn_env s i env_close
   | EStall i b =>
-    upd_conn_env s i (fun c =>
-      {| cid := cid c; pc := pc c; nreq := nreq c; input := input c; eof := eof c; stalled := b;
-         interrupted := interrupted c; inflight := inflight c; hs := hs c; started := started c; ended := ended c;
-         unbind_seen := unbind_seen c; read_after_unbind := read_after_unbind c; sock_closed := sock_closed c;
-         onclose := onclose c; wgdone := wgdone c |})
+    upd_conn_env s i (env_stall b)
   | ERelease b =>
     Some {| lst := lst s; port_bound := port_bound s; ready := ready s; cancelled := cancelled s; run := run s;
             stops := stops s; nextid := nextid s; connwg := connwg s; backlog := backlog s;
-            accept_err := accept_err s; conns := conns s; alive := alive s; released := b :: released s;
+            accept_err := accept_err s; accept_failed := accept_failed s; conns := conns s; alive := alive s; released := b :: released s;
             onclose_held := onclose_held s |}
   | EHoldOnClose b =>
     Some {| lst := lst s; port_bound := port_bound s; ready := ready s; cancelled := cancelled s; run := run s;
             stops := stops s; nextid := nextid s; connwg := connwg s; backlog := backlog s;
-            accept_err := accept_err s; conns := conns s; alive := alive s; released := released s;
+            accept_err := accept_err s; accept_failed := accept_failed s; conns := conns s; alive := alive s; released := released s;
             onclose_held := b |}
   | EAcceptErr =>
     Some (mk s (lst s) (port_bound s) (ready s) (cancelled s) (run s) (stops s) (nextid s) (connwg s) (backlog s)
